@@ -151,8 +151,12 @@ def build_node(ns: dict, path: str, built: Built, *, src_toggle=[0]):
             node = node.map_over(*m["over"], mode=m.get("mode", "zip"), error_handling=m.get("err", "raise"), clone=m.get("clone", False))
         return node
     params = ns.get("params", [])
-    src_toggle[0] += 1
-    with_source = ns.get("src", src_toggle[0] % 2 == 0)
+    import zlib
+
+    # half of the functions have retrievable source (source-hash branch of hash_definition),
+    # half not (bytecode branch); decided by the function identity so that rebuilding a spec
+    # yields functions with identical definition hashes
+    with_source = ns.get("src", zlib.crc32(fid.encode()) % 2 == 0)
     shared = ns.get("shared_fn")  # reuse a function object built earlier (C09)
     if shared is not None and shared in built.shared_fns:
         fn = built.shared_fns[shared]
